@@ -159,10 +159,13 @@ pub const BUILTINS: [(&str, &[(&str, bool)]); 10] = [
     ("drawCircle", &[("x0", false), ("y0", false), ("radius", false), ("color", false)]),
 ];
 
-const NAME_POOL: [&str; 42] = [
+const NAME_POOL: [&str; 50] = [
     "a", "b", "c", "i", "j", "k", "n", "x", "y", "v", "m", "t", "res", "tmp", "val", "idx", "sum",
     "cnt", "_u", "x1", "y2", "iff", "typ", "procs", "elsex", "of_", "A", "Vec", "var1", "if2", "of3",
     "proc0", "type9", "while_", "ref7", "array2", "intVec", "exitAll", "timer", "printi2", "int_", "readcx",
+    // boundary spellings: lone underscores, prefixes of `main`, a very long name
+    "_", "__", "a_b_c", "X9", "mainx", "main_", "m4in",
+    "a_rather_long_identifier_name_with_many_parts_0123456789_and_more_parts_ABCDEFGHIJKLMNOPQRSTUVWXYZ_end",
 ];
 
 #[derive(Clone, Debug)]
@@ -185,6 +188,8 @@ impl Default for GenCfg {
 }
 
 struct Gen<'s, 'a> {
+    /// this program may nest array types up to 6 levels (otherwise 3)
+    deep_types: bool,
     s: &'s mut Src<'a>,
     prog: Prog,
     used_global: Vec<String>,
@@ -235,7 +240,7 @@ impl<'s, 'a> Gen<'s, 'a> {
                 Lit::Dec(v, v.to_string())
             }
             6 => {
-                let v = self.s.below(256) as u32;
+                let v = if self.s.chance(1, 6) { *self.s.pick(&[0x7FFFFFFFu32, 0x7FFFFFF0, 0x10000, 0xFFFF, 0xABCDEF]) } else { self.s.below(256) as u32 };
                 let txt = match self.s.below(4) {
                     0 => format!("0x{:x}", v),
                     1 => format!("0x{:X}", v),
@@ -266,7 +271,8 @@ impl<'s, 'a> Gen<'s, 'a> {
     fn texpr(&mut self, depth: usize, shadow: &[String]) -> (TExpr, Ty) {
         let nt = self.prog.types.len();
         let c = self.s.below(8);
-        if depth < 3 && c >= 6 {
+        let limit = if self.deep_types { 6 } else { 3 };
+        if depth < limit && c >= 6 {
             let size = if self.s.chance(1, 4) {
                 let l = self.lit(true);
                 if l.value() == 0 { Lit::Dec(1, "1".into()) } else { l }
@@ -315,7 +321,7 @@ impl<'s, 'a> Gen<'s, 'a> {
         let mut taken: Vec<String> = Vec::new();
         let mut params = Vec::new();
         if !is_main {
-            let np = self.s.below(self.cfg.max_params + 1);
+            let np = if self.s.chance(1, 24) { self.cfg.max_params + 1 + self.s.below(8) } else { self.s.below(self.cfg.max_params + 1) };
             for _ in 0..np {
                 let (pname, shadows) = self.local_name(&taken.clone(), "q", true);
                 // parameter types are resolved in the global scope only
@@ -551,8 +557,15 @@ fn set_creator(t: Ty, name: &str) -> Ty {
 }
 
 pub fn gen_prog(s: &mut Src, cfg: &GenCfg) -> Prog {
-    let mut g = Gen { s, prog: Prog::default(), used_global: Vec::new(), cfg: cfg.clone(), budget: cfg.budget };
-    let n = 1 + g.s.below(cfg.max_decls);
+    let mut g = Gen { deep_types: false, s, prog: Prog::default(), used_global: Vec::new(), cfg: cfg.clone(), budget: cfg.budget };
+    g.deep_types = g.s.chance(1, 10);
+    // one program in 24 is large: up to four times the usual number of global declarations
+    let n = if g.s.chance(1, 24) {
+        g.budget *= 3;
+        cfg.max_decls + 1 + g.s.below(3 * cfg.max_decls)
+    } else {
+        1 + g.s.below(cfg.max_decls)
+    };
     let main_at = g.s.below(n);
     let mut proc_ids = Vec::new();
     for i in 0..n {
@@ -574,7 +587,7 @@ pub fn gen_prog(s: &mut Src, cfg: &GenCfg) -> Prog {
 
 /// One more well-typed statement for procedure `p` of an existing program.
 pub fn gen_stmt(s: &mut Src, prog: &Prog, p: usize, cfg: &GenCfg) -> Stmt {
-    let mut g = Gen { s, prog: prog.clone(), used_global: Vec::new(), cfg: cfg.clone(), budget: cfg.budget.min(40) };
+    let mut g = Gen { deep_types: false, s, prog: prog.clone(), used_global: Vec::new(), cfg: cfg.clone(), budget: cfg.budget.min(40) };
     let depth = g.cfg.max_depth.saturating_sub(2);
     normalize_stmt(g.stmt(p, depth))
 }
@@ -584,7 +597,7 @@ pub fn gen_stmt(s: &mut Src, prog: &Prog, p: usize, cfg: &GenCfg) -> Stmt {
 /// be placed anywhere.
 pub fn gen_decl(s: &mut Src, prog: &mut Prog, cfg: &GenCfg) -> Decl {
     let used: Vec<String> = prog.types.iter().map(|t| t.name.clone()).chain(prog.procs.iter().map(|p| p.name.clone())).collect();
-    let mut g = Gen { s, prog: std::mem::take(prog), used_global: used, cfg: cfg.clone(), budget: 30 };
+    let mut g = Gen { deep_types: false, s, prog: std::mem::take(prog), used_global: used, cfg: cfg.clone(), budget: 30 };
     let d = if g.s.chance(1, 2) {
         let name = g.global_name("T");
         let (expr, ty) = if g.s.chance(1, 2) {
